@@ -241,6 +241,10 @@ pub mod raw {
                 };
                 wr(&r, out)
             }
+            "ed_is_small_order_c" => out.push(vp_ed_is_small_order(&crate::edwards::CompressedEdwardsY(rd::<B32>(a[0])).decompress().expect("replay point decodes")) as u8),
+            "g_mont_from_base_clamped" => wr(&vp_g_ed_mul_base_clamped(&rd::<B32>(a[0])).to_montgomery().0, out),
+            "g_ed_mul_clamped" => wr(&vp_g_ed_mul_clamped(&crate::edwards::CompressedEdwardsY(rd::<B32>(a[0])).decompress().expect("replay point decodes"), &rd::<B32>(a[1])).compress().0, out),
+            "g_ed_mul_base_clamped" => wr(&vp_g_ed_mul_base_clamped(&rd::<B32>(a[0])).compress().0, out),
             "g_mont_mul" => wr(&vp_g_mont_mul(&MontgomeryPoint(rd::<B32>(a[0])), &scalar_raw(rd::<B32>(a[1]))).0, out),
             "g_mont_mul_clamped" => wr(&vp_g_mont_mul_clamped(&MontgomeryPoint(rd::<B32>(a[0])), &rd::<B32>(a[1])).0, out),
             "g_opt_pippenger" | "g_opt_pippenger_dispatch" | "g_opt_multiscalar" => {
@@ -328,6 +332,17 @@ use crate::traits::{MultiscalarMul, VartimeMultiscalarMul};
 #[no_mangle] #[inline(never)] pub fn vp_g_multiscalar_mul(s: &[Scalar], p: &[EdwardsPoint]) -> EdwardsPoint { use crate::traits::MultiscalarMul; EdwardsPoint::multiscalar_mul(s.iter(), p.iter()) }
 #[cfg(feature = "alloc")]
 #[no_mangle] #[inline(never)] pub fn vp_g_ris_multiscalar_mul(s: &[Scalar], p: &[crate::ristretto::RistrettoPoint]) -> crate::ristretto::RistrettoPoint { use crate::traits::MultiscalarMul; crate::ristretto::RistrettoPoint::multiscalar_mul(s.iter(), p.iter()) }
+// Ristretto wrappers and Sum (C04: "and the Ristretto wrappers"; C03: summation)
+#[no_mangle] #[inline(never)] pub fn vp_g_ris_mul(p: &crate::ristretto::RistrettoPoint, s: &Scalar) -> crate::ristretto::RistrettoPoint { p * s }
+#[no_mangle] #[inline(never)] pub fn vp_g_ris_mul_rev(p: &crate::ristretto::RistrettoPoint, s: &Scalar) -> crate::ristretto::RistrettoPoint { s * p }
+#[no_mangle] #[inline(never)] pub fn vp_g_ris_mul_base(s: &Scalar) -> crate::ristretto::RistrettoPoint { crate::ristretto::RistrettoPoint::mul_base(s) }
+#[no_mangle] #[inline(never)] pub fn vp_g_ris_vartime_double(a: &Scalar, p: &crate::ristretto::RistrettoPoint, b: &Scalar) -> crate::ristretto::RistrettoPoint { crate::ristretto::RistrettoPoint::vartime_double_scalar_mul_basepoint(a, p, b) }
+#[cfg(feature = "precomputed-tables")]
+#[no_mangle] #[inline(never)] pub fn vp_g_ris_table_mul(s: &Scalar) -> crate::ristretto::RistrettoPoint { crate::constants::RISTRETTO_BASEPOINT_TABLE * s }
+#[cfg(feature = "alloc")]
+#[no_mangle] #[inline(never)] pub fn vp_g_ris_vartime_multiscalar_mul(s: &[Scalar], p: &[crate::ristretto::RistrettoPoint]) -> crate::ristretto::RistrettoPoint { use crate::traits::VartimeMultiscalarMul; crate::ristretto::RistrettoPoint::vartime_multiscalar_mul(s.iter(), p.iter()) }
+#[no_mangle] #[inline(never)] pub fn vp_g_ed_sum(p: &[EdwardsPoint]) -> EdwardsPoint { p.iter().sum() }
+#[no_mangle] #[inline(never)] pub fn vp_g_ris_sum(p: &[crate::ristretto::RistrettoPoint]) -> crate::ristretto::RistrettoPoint { p.iter().sum() }
 #[cfg(feature = "alloc")]
 #[no_mangle] #[inline(never)] pub fn vp_g_straus_ct_0() -> EdwardsPoint { let s: [Scalar; 0] = []; let p: [EdwardsPoint; 0] = []; ssm::straus::Straus::multiscalar_mul(s.iter(), p.iter()) }
 #[cfg(feature = "alloc")]
